@@ -83,7 +83,7 @@ def units_test(a):
             else:
                 md = md1
         else:
-            if md == 'dirty' or cur != s['n'] or pend != _oord(s['b']):
+            if cur != s['n'] or pend != _oord(s['b']):   # any state of the recipe table (since fix ee9caf1)
                 return False
             if s['body'][-1]['b'] is not None or int(s['m']) < 1 or (cl and s['a'] is not None):
                 return False
